@@ -1018,7 +1018,8 @@ def run_parts(run, parts, only=None, pendings=1, kinds=None, mandatory=True):
     prog = dump_mir(run)
     helper = Helper(run)
     if "dispatcher" in parts:
-        decide_dispatcher(run, prog, helper, kinds=kinds, only=only, mandatory=mandatory, pendings=pendings)
+        _, fns = decide_dispatcher(run, prog, helper, kinds=kinds, only=only, mandatory=mandatory, pendings=pendings)
+        crosscheck_operator_functions(run, fns)
     if "ruleset" in parts:
         ks = (0, 1, 2, 3) if run.tier == "quick" else (0, 1, 2, 3, 4)
         res = ruleset_obligations(run, prog, ks, pendings=pendings, only=only)
@@ -1969,3 +1970,22 @@ def rule_parse_text(info, cex):
         v = C.value(meta_at(DESC_K))
         out.append("@description: " + ('"' + v["v"] + '"' if v["t"] == "String" and re.match(r"^[a-z ]*$", v["v"]) else "i5") + ";")
     return "\n".join(out + ["i1"])
+
+
+def crosscheck_operator_functions(run, fns):
+    """The Kani cells of C01-C04 decide, per node kind K, the function that the SOURCE TEXT of the arm names (extract.eval_arms). E3 sees
+    which function the MIR of that arm really applies. If the two disagree the cells are checking the wrong function: say so (cannot decide)."""
+    from .common import EncodingError
+    from .extract import eval_arms
+    try:
+        arms = eval_arms(run.read("src/expr/eval/mod.rs"))
+    except (EncodingError, OSError):
+        return
+    bad = []
+    for node, called in fns.items():
+        named = (arms.get(node) or {}).get("fn")
+        if named and called and named not in called and not any(c in (arms.get(node) or {}).get("text", "") for c in called):
+            bad.append(f"{node}: source names `{named}`, the MIR applies {called}")
+    run.extra.setdefault("mir", {})["operator_function_per_node"] = {k: v for k, v in sorted(fns.items())}
+    if bad:
+        run.inconc("operator-function-crosscheck", "; ".join(bad)[:400], mandatory=True)
